@@ -143,7 +143,17 @@ class FlowGen:
                     slots.append((e, True))
                 dc, de = cat("Other")
                 cats.append(dc)
-                slots.append((de, False))
+                filed_under_default = kind != "group" and rng.random() < 0.15
+                if filed_under_default:
+                    # a rule filed under the router's DEFAULT category (by name): the default exit is shared by
+                    # that rule and by "everything else"
+                    for _ in range(30):
+                        ty, args = rng.choice(TESTS1), [self.word()]
+                        if (ty, tuple(args)) not in used:
+                            break
+                    used.add((ty, tuple(args)))
+                    cases.append({"uuid": self.uuid(), "type": ty, "arguments": args, "category_uuid": dc["uuid"]})
+                slots.append((de, filed_under_default))
                 router = {"type": "switch", "operand": {"wait": "@input.text", "split": rng.choice(["@fields.color", "@results.answer", "@contact.name"]), "group": "@contact.groups"}[kind],
                           "cases": cases, "categories": cats, "default_category_uuid": dc["uuid"]}
                 if kind == "wait":
